@@ -25,7 +25,9 @@ REQUIRED_LINES = [("mofun/rough_uff.py", 'print("exception: both oxys")'), ("mof
                   ("mofun/rough_uff.py", 'print("exception: sp3 oxy, sp2/resonant other")'), ("mofun/rough_uff.py", "n = 6\n"),
                   ("mofun/rough_uff.py", "elif theta0deg == 90. and a2_coord_is_4:"), ("mofun/rough_uff.py", "c2 = 1 / (4 * sin(theta0rad)**2)")]
 JOBS = {"quick": 4, "thorough": 16}
-RULESETS = [None, [({"N_1"}, 2), ({"N_1", "N_2"}, 2)], [({"C_R", "O_2"}, 1.5), ({"Zr8f4", "O_2"}, 0.5), ({"C_2"}, 1)]]
+RULESETS = [None, [({"N_1"}, 2), ({"N_1", "N_2"}, 2)], [({"C_R", "O_2"}, 1.5), ({"Zr8f4", "O_2"}, 0.5), ({"C_2"}, 1)],
+            # rules that name the one-letter elements' types (written with a padding underscore in the table) and a fractional order
+            [({"H_", "O_3"}, 2), ({"K_", "O_2"}, 1.5), ({"F_"}, 0.5), ({"I_", "C_3"}, 0.25), ({"H_"}, 1.5)]]
 BOS = [None, 1, 1.5, 2]
 MULTS = [1, 2, 3, 6, 9]
 REL = 1e-9
@@ -216,7 +218,7 @@ def run_case(case, ctx):
         if kind == "triples_random":
             rng = np.random.default_rng(case["s"])
             outer = [(ts[int(i)], ts[int(k)]) for i, k in rng.integers(0, n, (case["count"], 2))]
-            settings = [((None, None), None), ((1.5, None), None), ((None, 2), RULESETS[2])]
+            settings = [((None, None), None), ((1.5, None), None), ((None, 2), RULESETS[2]), ((None, None), RULESETS[3])]
         else:
             outer = [(ts[i], a3) for i in range(case["i0"], case["i1"]) for a3 in ts]
             settings = [((None, None), None)]
@@ -253,7 +255,7 @@ def run_case(case, ctx):
             a = tuple(ts[int(i)] for i in rng.integers(0, n, 4))
             M = int(rng.integers(1, 10))
             r = int(rng.integers(6))
-            bo, rules = (None, None) if r < 3 else ((float(rng.choice([1, 1.5, 2, 1.41])), None) if r < 5 else (None, RULESETS[2]))
+            bo, rules = (None, None) if r < 3 else ((float(rng.choice([1, 1.5, 2, 1.41])), None) if r < 5 else (None, RULESETS[2 + int(rng.integers(2))]))
             check_dihedral(ru, tab, mg, a, M, ctx, st, bo=bo, rules=rules)
         st.count("random_quadruples", case["count"])
         ctx.nontrivial([kind, case["s"]])
